@@ -140,6 +140,8 @@ def rule_window(ctx, only=None):
             continue
         if only and b["path"] not in only:
             continue
+        if b.get("kind") == "Closure" and any(h == b["path"] for _, _, h in getattr(facts, "inlined", [])):
+            continue        # a local closure whose calls were folded into its parent: judged there
         fn = fn_of(b)
         k = 0
         for bi, t, end, cons, start, hroot in windows(fn):
